@@ -87,6 +87,10 @@ def linear_schemas(tier: str, constraint: Any = None, fn: str = "linear") -> Lis
                 continue
             args = dict(input=P("input", lead + (I,)), weight=P("weight", (Oo, I)), bias=P("bias", (Oo,)) if bias else None, constraint=constraint)
             out.append(Schema(f"{fn}[lead={len(lead)},bias={bias}]", args))
+    if fn == "linear":
+        # the three documented powers (output, grad(input), grad(weight|bias)) as independent symbols
+        pw = (hyper("p_out"), hyper("p_gin"), hyper("p_gpar"))
+        out.append(Schema("linear[lead=2,bias=True,scale_power symbolic]", dict(input=P("input", (d1, d2, I)), weight=P("weight", (Oo, I)), bias=P("bias", (Oo,)), constraint=constraint, scale_power=pw)))
     return out
 
 
@@ -118,6 +122,9 @@ def conv1d_schemas(tier: str, constraint: Any = None) -> List[Schema]:
                          stride=s, padding=p, dilation=dl, groups=G, constraint=constraint),
                 )
             )
+    pw = (hyper("p_out"), hyper("p_gin"), hyper("p_gpar"))
+    out.append(Schema("conv1d[batched=True,bias=True,scale_power symbolic]", dict(input=P("input", (N, C, L)), weight=P("weight", (Co, Cg, k)), bias=P("bias", (Co,)),
+                                                                                  stride=s, padding=p, dilation=dl, groups=G, constraint=constraint, scale_power=pw)))
     return out
 
 
@@ -157,6 +164,10 @@ def norm_schemas(tier: str, fn: str) -> List[Schema]:
     # no affine parameters
     args = dict(input=P("input", (d1, n1)), normalized_shape=(n1,))
     out.append(Schema(f"{fn}[no-affine]", args))
+    if fn == "layer_norm":
+        # each affine parameter is optional on its own
+        out.append(Schema(f"{fn}[bias only]", dict(input=P("input", (d1, n1)), normalized_shape=(n1,), bias=P("bias", (n1,)))))
+        out.append(Schema(f"{fn}[weight only]", dict(input=P("input", (d1, n1)), normalized_shape=(n1,), weight=P("weight", (n1,)))))
     return out
 
 
